@@ -172,7 +172,10 @@ CLAIMED["C09"] = dict(
          "expText_wf, gText_wf with its zero stripping), the converter's output steps (pf_utoa first block, blocks of nine digits, "
          "pf_pad zeros, the d.ddd block, the exponent) spell every well-formed text (planText_bodyPlan), hence the model's text "
          "is the specification's (float_text) and formatter_meets_spec extends to all conversions (formatter_meets_spec_all). "
-         "PARTIAL in one respect only: that the implementation's Ryu digit generation yields the specification's "
+         "The text of %f denotes the correctly rounded value: its digits with the point removed spell m*2^e*10^prec rounded to "
+         "nearest, ties to even, with exactly prec digits after the point (fixed_correctly_rounded, from fixedText_value and "
+         "roundDiv_nearest_even); the significant digits of %e are the value scaled to the printed exponent, rounded the same way "
+         "(exp_digits_correctly_rounded). PARTIAL in one respect only: that the implementation's Ryu digit generation yields the specification's "
          "digits is established by correspondence (all generated cases, checked against glibc and the exact reference), not by "
          "a theorem. The type-directed print family: each value is rendered as its default conversion (print_default_conversions) "
          "and a print call writes the concatenated text and returns its length (print_writes_text); embedded format strings go "
